@@ -13,20 +13,22 @@
      is_dir_at p fs                 p is a chain of real directories (no link) ending in a directory *)
 From Coq Require Import List NArith Bool.
 From DS Require Import Base.Bytes Base.FS Base.GoPath Model.FSLinks Model.ArchiveNames Model.Untar
-     Proofs.ArchiveNamesProofs Proofs.UntarProofs Proofs.UntarWitness.
+     Proofs.ArchiveNamesProofs Proofs.FSLinksProofs Proofs.UntarProofs Proofs.UntarWitness.
 Import ListNotations.
 
-(* The decoder as it is now (b7b089e) confines the writer.  For EVERY element sequence
+(* The decoder as it is now (c6596cf) confines the writer.  For EVERY element sequence
    (any names, any nesting, link-then-same-name orders, goodbyes in excess, a first entry of
-   any kind), every writer option, and every initial tree in which the destination [root]
-   (a clean absolute path, not "/") is a real directory -- what is inside and outside of it
-   is arbitrary, including links left by an earlier extraction:
+   any kind), every writer option, and every initial tree in which the PARENT chain of the
+   destination [root] (a clean absolute path, not "/") consists of real directories and
+   [root] itself is not a symbolic link -- it may be a directory, a file, or not exist yet;
+   what is inside and outside of it is arbitrary, including links left by an earlier
+   extraction:
      - every place the run writes (creates, replaces, removes, chowns, chmods, touches) is
        the destination or lies below it, also when the run ends with an error half way;
      - lstat and content of every place that is not beneath the destination are unchanged;
      - the fuel of the model's loop is never used up. *)
 Theorem C18_untar_confined : forall (o : opts) (root : path) (elems : list elem) (fs : node),
-  root <> [] -> Forall real_elem root -> is_dir_at root fs ->
+  root <> [] -> Forall real_elem root -> parent_ok root fs -> not_link_at root fs ->
   let r := untar Fixed o (rootstr root) elems fs in
   Forall (fun p => beneath root p = true) (w_touched (fst r)) /\
   (forall q, beneath root q = false -> stat q (w_fs (fst r)) = stat q fs) /\
@@ -34,14 +36,26 @@ Theorem C18_untar_confined : forall (o : opts) (root : path) (elems : list elem)
 Proof. exact untar_confined. Qed.
 Print Assumptions C18_untar_confined.
 
+(* the usual case: the destination exists and is a real directory *)
+Theorem C18_untar_confined_dir : forall (o : opts) (root : path) (elems : list elem) (fs : node),
+  root <> [] -> Forall real_elem root -> is_dir_at root fs ->
+  let r := untar Fixed o (rootstr root) elems fs in
+  Forall (fun p => beneath root p = true) (w_touched (fst r)) /\
+  (forall q, beneath root q = false -> stat q (w_fs (fst r)) = stat q fs) /\
+  snd r <> OutOfFuel.
+Proof. exact untar_confined_dir. Qed.
+Print Assumptions C18_untar_confined_dir.
+
 (* The name discipline behind it: started in a directory "." / "c1/../cn" of validated
    components ([real_elem]: not "", ".", "..", no '/'), Next hands the writer a Name that is
    a prefix of that directory plus at most one validated component -- nameless only for the
-   first node of the archive -- and leaves a.dir in the same form. *)
-Theorem C18_archive_names : forall started cs inp nd base dir' rest,
-  Forall real_elem cs -> archive_next Fixed started (rel cs) inp = NNode nd base dir' rest ->
+   first node of the archive, nothing at all after a root entry that is not a directory --
+   and leaves a.dir in the same form. *)
+Theorem C18_archive_names : forall ds cs inp nd base dir' rest,
+  Forall real_elem cs -> archive_next Fixed ds (rel cs) inp = NNode nd base dir' rest ->
+  ds <> LeafRoot /\
   exists cs0, prefix_of cs0 cs /\ Forall real_elem (cs0 ++ opt_comp base) /\
-              node_name nd = rel (cs0 ++ opt_comp base) /\ (base = [] -> started = false) /\
+              node_name nd = rel (cs0 ++ opt_comp base) /\ (base = [] -> ds = Fresh) /\
               exists cs', dir' = rel cs' /\ Forall real_elem cs'.
 Proof. exact archive_names_components. Qed.
 Print Assumptions C18_archive_names.
@@ -70,7 +84,7 @@ Example C18_link_then_file :
   stat (w_root ++ [w_s]) (w_fs (fst (untar Fixed w_opts (rootstr w_root) w_benign wit_fs)))
     = Some (EFile (mkMeta 420 0 0 1000 []) [6%N]) /\
   stat w_victim (w_fs (fst (untar Fixed w_opts (rootstr w_root) w_benign wit_fs))) = stat w_victim wit_fs /\
-  length (w_touched (fst (untar Fixed w_opts (rootstr w_root) w_benign wit_fs))) = 18.
+  length (w_touched (fst (untar Fixed w_opts (rootstr w_root) w_benign wit_fs))) = 19.
 Proof. exact benign_run. Qed.
 
 Example C18_link_then_dir_stops :
@@ -84,16 +98,44 @@ Example C18_pre_existing_link_stops :
 Proof. exact pre_existing_link_stops. Qed.
 
 Example C18_file_as_root :
-  snd (untar Fixed w_opts (rootstr w_root) w_file_root wit_fs) = WriteError ENOTDIR /\
+  snd (untar Fixed w_opts (rootstr w_root) w_file_root wit_fs) = DecodeError /\
   stat w_root (w_fs (fst (untar Fixed w_opts (rootstr w_root) w_file_root wit_fs))) = Some (EFile (mkMeta 420 0 0 1000 []) [1%N]) /\
   stat w_victim (w_fs (fst (untar Fixed w_opts (rootstr w_root) w_file_root wit_fs))) = stat w_victim wit_fs.
 Proof. exact file_root_run. Qed.
 
-(* the archives of the two refutations below are refused by the decoder as it is now *)
+(* the destination need not exist: a directory as the root entry creates it *)
+Example C18_absent_destination_created :
+  parent_ok w_root wit_fs_absent /\ not_link_at w_root wit_fs_absent /\ ~ is_dir_at w_root wit_fs_absent /\
+  snd (untar Fixed w_opts (rootstr w_root) w_benign wit_fs_absent) = Done /\
+  is_dir_at w_root (w_fs (fst (untar Fixed w_opts (rootstr w_root) w_benign wit_fs_absent))).
+Proof. exact absent_dest_created. Qed.
+
+(* ... and a link as the root entry is created AT the destination path, and that is all *)
+Example C18_root_link_now :
+  snd (untar Fixed w_opts (rootstr w_root) w_root_link wit_fs_absent) = DecodeError /\
+  stat w_root (w_fs (fst (untar Fixed w_opts (rootstr w_root) w_root_link wit_fs_absent)))
+    = Some (ELink (mkMeta 511 0 0 1000 []) w_out) /\
+  stat w_victim (w_fs (fst (untar Fixed w_opts (rootstr w_root) w_root_link wit_fs_absent))) = stat w_victim wit_fs_absent.
+Proof. exact root_link_now. Qed.
+
+(* the archives of the refutations below are refused by the decoder as it is now *)
 Example C18_witnesses_rejected_now :
   snd (untar Fixed w_opts (rootstr w_root) w_nameless wit_fs) = DecodeError /\
   snd (untar Fixed w_opts (rootstr w_root) w_dotdot wit_fs) = DecodeError.
 Proof. split; [exact nameless_rejected_now|exact dotdot_rejected]. Qed.
+
+(* The decoder of commit b7b089e ([Fix2]) did NOT confine the writer when the destination
+   does not exist yet (or is a file): a root entry that is a symbolic link is created AT the
+   destination path (unlink: ENOENT, ignored), and every following entry is written through
+   it.  UnTar returns nil; a file outside the destination is overwritten.  Repaired by
+   c6596cf (nothing is accepted after a root entry that is not a directory). *)
+Theorem C18_untar_leafroot_refuted :
+  exists (elems : list elem) (fs : node) (root victim : path),
+    root <> [] /\ Forall real_elem root /\ parent_ok root fs /\ not_link_at root fs /\ beneath root victim = false /\
+    snd (untar Fix2 (mkOpts false false) (rootstr root) elems fs) = Done /\
+    stat victim (w_fs (fst (untar Fix2 (mkOpts false false) (rootstr root) elems fs))) <> stat victim fs.
+Proof. exact untar_leafroot_refuted. Qed.
+Print Assumptions C18_untar_leafroot_refuted.
 
 (* The decoder of commit 41ef764 (filename elements checked, [Fix1]) did NOT confine the
    writer -- found by this check, repaired by b7b089e.  An Entry that no Filename element
